@@ -310,7 +310,7 @@ func (f *SQLFormatter) formatInsert(stmt *ast.InsertStatement) error {
 		return err
 	}
 	f.writeKeyword("INSERT INTO")
-	f.builder.WriteString(" " + stmt.TableName)
+	f.builder.WriteString(" " + quoteName(stmt.TableName))
 
 	if len(stmt.Columns) > 0 {
 		f.builder.WriteString(" (")
@@ -439,10 +439,10 @@ func (f *SQLFormatter) formatUpdate(stmt *ast.UpdateStatement) error {
 		return err
 	}
 	f.writeKeyword("UPDATE")
-	f.builder.WriteString(" " + stmt.TableName)
+	f.builder.WriteString(" " + quoteName(stmt.TableName))
 
 	if stmt.Alias != "" {
-		f.builder.WriteString(" " + stmt.Alias)
+		f.builder.WriteString(" " + quoteName(stmt.Alias))
 	}
 
 	if len(stmt.Assignments) > 0 {
@@ -480,10 +480,10 @@ func (f *SQLFormatter) formatDelete(stmt *ast.DeleteStatement) error {
 		return err
 	}
 	f.writeKeyword("DELETE FROM")
-	f.builder.WriteString(" " + stmt.TableName)
+	f.builder.WriteString(" " + quoteName(stmt.TableName))
 
 	if stmt.Alias != "" {
-		f.builder.WriteString(" " + stmt.Alias)
+		f.builder.WriteString(" " + quoteName(stmt.Alias))
 	}
 
 	if stmt.Where != nil {
@@ -1434,12 +1434,12 @@ func (f *SQLFormatter) formatTableReference(table *ast.TableReference) {
 		f.builder.WriteString(")")
 	} else {
 		// Format regular table name
-		f.builder.WriteString(table.Name)
+		f.builder.WriteString(quoteName(table.Name))
 	}
 	if table.Alias != "" {
 		f.builder.WriteString(" ")
 		f.writeKeyword("AS")
-		f.builder.WriteString(" " + table.Alias)
+		f.builder.WriteString(" " + quoteName(table.Alias))
 	}
 }
 
@@ -1515,6 +1515,13 @@ func (f *SQLFormatter) writeKeyword(keyword string) {
 	} else {
 		f.builder.WriteString(strings.ToLower(keyword))
 	}
+}
+
+// quoteName writes a table name or alias the way the AST serialiser writes a column
+// name: bare when it is made of letters, digits, underscores and dots, double-quoted
+// (with embedded quotes doubled) otherwise.
+func quoteName(name string) string {
+	return (&ast.Identifier{Name: name}).SQL()
 }
 
 // formatIdentifier formats an identifier, quoting it if it contains special characters
@@ -1739,7 +1746,7 @@ func (f *SQLFormatter) formatMergeStatement(stmt *ast.MergeStatement) error {
 	f.builder.WriteString(" ")
 	f.formatTableReference(&stmt.TargetTable)
 	if stmt.TargetAlias != "" {
-		f.builder.WriteString(" " + stmt.TargetAlias)
+		f.builder.WriteString(" " + quoteName(stmt.TargetAlias))
 	}
 
 	// USING source_table
@@ -1748,7 +1755,7 @@ func (f *SQLFormatter) formatMergeStatement(stmt *ast.MergeStatement) error {
 	f.builder.WriteString(" ")
 	f.formatTableReference(&stmt.SourceTable)
 	if stmt.SourceAlias != "" {
-		f.builder.WriteString(" " + stmt.SourceAlias)
+		f.builder.WriteString(" " + quoteName(stmt.SourceAlias))
 	}
 
 	// ON condition
